@@ -50,6 +50,8 @@ func (Engine) Generate(prop, tier string, run int, seed uint64) *kernel.Scenario
 		return genSettleScenario(r, prop)
 	case "C08":
 		return genC08(r)
+	case "C07":
+		return genC07(r)
 	}
 	return nil
 }
@@ -62,6 +64,8 @@ func (Engine) Execute(t *testing.T, sc *kernel.Scenario, trace bool) *kernel.Res
 		return execSettle(t, sc, trace)
 	case "C08":
 		return execC08(t, sc, trace)
+	case "C07":
+		return execC07(t, sc, trace)
 	}
 	return &kernel.Result{}
 }
